@@ -50,6 +50,18 @@ Definition arg_index (v : value) : option Z :=
 (* ---- arrays: shared mutable sequences *)
 Definition sp_arrayNew (args : list value) (m : astate) : sout := alloc_ret m (ASeq args).
 
+(* arrayNewSize(size = 0, value = 0) *)
+Definition sp_arrayNewSize (args : list value) (m : astate) : sout :=
+  match (match args with
+         | [] => Some (vint 0, vint 0) | [s] => Some (s, vint 0) | [s; v] => Some (s, v) | _ => None
+         end) with
+  | Some (s, v) => match arg_index s with
+                   | Some z => alloc_ret m (ASeq (repeat v (Z.to_nat z)))
+                   | None => fail m
+                   end
+  | None => fail m
+  end.
+
 Definition sp_arrayCopy (args : list value) (m : astate) : sout :=
   match args with
   | [VArr l] => with_seq m l (fun xs => alloc_ret m (ASeq xs))
@@ -204,7 +216,7 @@ Definition sp_objectAssign (args : list value) (m : astate) : sout :=
 (* ---- OPS: the operations of the abstract machine *)
 Definition spfun := list value -> astate -> sout.
 Definition spec_table : list (str * spfun) :=
-  [(U "arrayNew", sp_arrayNew); (U "arrayCopy", sp_arrayCopy); (U "arrayLength", sp_arrayLength); (U "arrayGet", sp_arrayGet);
+  [(U "arrayNew", sp_arrayNew); (U "arrayNewSize", sp_arrayNewSize); (U "arrayCopy", sp_arrayCopy); (U "arrayLength", sp_arrayLength); (U "arrayGet", sp_arrayGet);
    (U "arraySet", sp_arraySet); (U "arrayDelete", sp_arrayDelete); (U "arrayPush", sp_arrayPush); (U "arrayPop", sp_arrayPop);
    (U "arrayShift", sp_arrayShift); (U "arrayExtend", sp_arrayExtend); (U "arraySlice", sp_arraySlice);
    (U "objectNew", sp_objectNew); (U "objectCopy", sp_objectCopy); (U "objectKeys", sp_objectKeys); (U "objectGet", sp_objectGet);
